@@ -236,9 +236,15 @@ def k_race(run, case):
         w = subprocess.Popen([PY, "-c", WATCHER, os.path.join(home, ".evo", "settings.json"), stop],
                              stdout=subprocess.PIPE, text=True)
         procs = []
+        held = case.get("held")
         for i in range(N):
             log = os.path.join(base, "log%d.json" % i)
-            p = subprocess.Popen([PY, "-m", "vmon.failpoint", lead if i == 0 else "import", "race", "-1", "kill",
+            what, var = (lead if i == 0 else "import"), "kill"
+            if held:
+                # A is held between write and rename, B completes a write of its own meanwhile, C starts after B
+                what = [lead, held, "import", "import"][min(i, 3)]
+                var = ["hold:700", "delay:250", "delay:520", "delay:600"][min(i, 3)]
+            p = subprocess.Popen([PY, "-m", "vmon.failpoint", what, "race", "-1", var,
                                   str(seed * 1000 + i), log, go], env=env_for(home, seed), cwd=base,
                                  stdout=subprocess.PIPE, stderr=subprocess.PIPE, text=True)
             procs.append((p, log))
@@ -357,6 +363,12 @@ def main(run):
     mixed = [(l, n) for l in leads for n in ((3, 8) if run.tier == "quick" else (2, 3, 4, 8, 12, 16) * 4)]
     for i in run.mine(len(mixed)):
         k_race(run, run.case("race", 10**5 + i, N=mixed[i][1], lead=mixed[i][0]))
+    # three actors: a writer held between writing its temporary file and renaming it, a second
+    # writer that completes meanwhile, and processes that start afterwards
+    held = [(a, b, n) for a in ("set", "reset_subset", "import", "upgrade") for b in ("set", "reset_all", "reset_subset")
+            for n in ((3, ) if run.tier == "quick" else (3, 4))]
+    for i in run.mine(len(held)):
+        k_race(run, run.case("race", 2 * 10**5 + i, N=held[i][2], lead=held[i][0], held=held[i][1]))
     run.need("settings file is absent or a complete JSON document after a kill",
              "a fresh start after the kill loads its settings with every default key",
              "no started process fails because of another one's initialisation",
